@@ -226,3 +226,26 @@ pub mod s5 {
         };
     }
 }
+
+pub mod s6 {
+    use a2lmacros_intree::a2ml_specification;
+    // structs nested directly inside structs, several levels deep
+    a2ml_specification! {
+        <SpecSix>
+
+        block "IF_DATA" taggedunion if_data {
+            "NEST" struct {
+                uint a;
+                struct Inner1 {
+                    uint b;
+                    struct Inner2 {
+                        uint c;
+                        char name[8];
+                    };
+                    long d;
+                };
+                uchar e;
+            };
+        };
+    }
+}
